@@ -308,7 +308,9 @@ class Vector():
 			a = a.to_object()            # now object vector
 			a[2] = "ryan"                # allowed - can mix types
 		"""
-		return Vector(list(self._underlying), dtype=object, name=self._name, as_row=self._display_as_row)
+		# object kind, but keep the nullability: the elements are the same, Nones included
+		nullable = self._dtype.nullable if self._dtype is not None else True
+		return Vector(list(self._underlying), dtype=DataType(object, nullable=nullable), name=self._name, as_row=self._display_as_row)
 
 	def alias(self, new_name):
 		"""
